@@ -9,6 +9,7 @@ package harness
 
 import (
 	"context"
+	"sort"
 	"encoding/json"
 	"errors"
 	"fmt"
@@ -55,7 +56,7 @@ func (q *failQ) Get() (json.RawMessage, error) {
 }
 
 func FamLinkEnd(seed int64) SysRecord {
-	variant := int(seed % int64(3*len(sentinelErrs)+8))
+	variant := int(seed % int64(3*len(sentinelErrs)+12))
 	if variant < 0 {
 		variant = -variant
 	}
@@ -152,6 +153,47 @@ func FamLinkEnd(seed int64) SysRecord {
 		fail <- s.err
 		finish(rem, done, rec.Config)
 		cancel()
+	case variant >= 3*ns+8: // the link context ends with a cause: Link still returns the context's error
+		k := variant - (3*ns + 8)
+		stream := k%2 == 1
+		timeout := k >= 2
+		rec.Config = fmt.Sprintf("json-raw/%s link context %s with a cause", map[bool]string{false: "message", true: "stream"}[stream], map[bool]string{false: "cancelled", true: "timed out"}[timeout])
+		var lctx context.Context
+		var fire func()
+		if timeout {
+			c2, cn := context.WithTimeoutCause(context.Background(), 30*time.Millisecond, errors.New("application: watchdog fired"))
+			lctx, fire = c2, func() { time.Sleep(40 * time.Millisecond); _ = cn }
+		} else {
+			c2, cn := context.WithCancelCause(context.Background())
+			lctx, fire = c2, func() { cn(errors.New("application: shutting down for maintenance")) }
+		}
+		reqIn, resIn := newFailQ(), newFailQ()
+		sink := func(b json.RawMessage) error { return nil }
+		if !stream {
+			go func() { errc <- node.Reg.LinkMessage(lctx, sink, sink, reqIn.Get, resIn.Get, c.Marshal, c.Unmarshal, nil) }()
+		} else {
+			dec := func(v *rpc.Message[json.RawMessage]) error { <-lctx.Done(); return lctx.Err() }
+			enc := func(v rpc.Message[json.RawMessage]) error { return nil }
+			go func() { errc <- node.Reg.LinkStream(lctx, enc, dec, c.Marshal, c.Unmarshal, nil) }()
+		}
+		rem, ok2 := firstRemote()
+		if !ok2 {
+			return rec
+		}
+		done := inflight(rem, 960)
+		time.Sleep(2 * time.Millisecond)
+		fire()
+		finish(rem, done, rec.Config)
+		cancel()
+		other := errors.New("closed")
+		select {
+		case reqIn.fail <- other:
+		default:
+		}
+		select {
+		case resIn.fail <- other:
+		default:
+		}
 	case variant >= 3*ns+4: // a write fails (message API): request write (even) or response write (odd)
 		which := []string{"request", "response"}[variant%2]
 		s := sentinelErrs[[]int{8, 0, 2, 6}[variant-(3*ns+4)]]
@@ -470,6 +512,108 @@ func FamRelay[T any](c Codec[T], seed int64) SysRecord {
 			}
 		}
 	}
+	rec.Events = w.Events()
+	return rec
+}
+
+// ---- C14 / C13: a link whose context descends from the context of a request of ANOTHER link ----
+// Spoke S0 calls hub.OpenLink; the hub's handler links the hub to a new spoke S1 using the context of the
+// request it is handling (which carries S0's link identity) and returns. The new link must get a fresh
+// identity of its own: announced, enumerated and read by its handlers as such.
+func FamNestedLink[T any](c Codec[T], seed int64) SysRecord {
+	rec := SysRecord{Family: "nestedlink", Config: c.Name + "/mixed", Seed: seed}
+	w := newWorld()
+	hub := NewSysNode[T](w, "H")
+	s0, s1 := NewSysNode[T](w, "S0"), NewSysNode[T](w, "S1")
+	l0 := Connect(w, hub, s0, c, seed%2 == 0, -1, seed)
+	if !WaitRemotes(hub, 1) || !WaitRemotes(s0, 1) {
+		rec.Notes = append(rec.Notes, "link did not come up")
+		return rec
+	}
+	var id0 string
+	for id := range hub.Remotes() {
+		id0 = id
+	}
+	var l1 *SysLink[T]
+	var lmu sync.Mutex
+	w.mu.Lock()
+	w.openLink = func(ctx context.Context, tag int) int {
+		l := ConnectCtx(ctx, w, hub, s1, c, seed%3 == 0, -1, seed+7)
+		lmu.Lock()
+		l1 = l
+		lmu.Unlock()
+		if !WaitRemotes(s1, 1) {
+			return -1
+		}
+		// keep the request (and with it the parent context) alive until the workload is done
+		select {
+		case <-w.gate(tag):
+		case <-time.After(10 * time.Second):
+		}
+		return len(hub.Remotes())
+	}
+	w.mu.Unlock()
+	ctx, cancel := context.WithTimeout(context.Background(), 20*time.Second)
+	defer cancel()
+	var rem0 sysRemote
+	for _, r := range s0.Remotes() {
+		rem0 = r
+	}
+	done := make(chan SysCall, 1)
+	go func() {
+		v, err := rem0.OpenLink(ctx, 760)
+		done <- SysCall{Tag: 760, From: "S0", Method: "OpenLink", Ret: canon(v), Err: errText(err), Done: true}
+	}()
+	if !waitUntil(func() bool { return len(s1.Remotes()) == 1 && len(hub.Remotes()) >= 1 }, 4*time.Second) {
+		rec.Notes = append(rec.Notes, "the second link did not come up")
+	}
+	time.Sleep(2 * time.Millisecond)
+	ids := []string{}
+	for id := range hub.Remotes() {
+		ids = append(ids, id)
+	}
+	sort.Strings(ids)
+	rec.Calls = append(rec.Calls, SysCall{Tag: 761, From: "H", Method: "EnumeratedWhileBothLinksLive", Ret: fmt.Sprint(len(ids)), Extra: id0, Done: true})
+	// what do the handlers of each link read from their context?
+	who0, e0 := rem0.WhoAmI(ctx, 762)
+	rec.Calls = append(rec.Calls, SysCall{Tag: 762, From: "S0", Method: "WhoAmIFirstLink", Ret: who0, Err: errText(e0), Extra: id0, Done: true})
+	for _, r := range s1.Remotes() {
+		who1, e1 := r.WhoAmI(ctx, 763)
+		other := ""
+		for _, id := range ids {
+			if id != id0 {
+				other = id
+			}
+		}
+		rec.Calls = append(rec.Calls, SysCall{Tag: 763, From: "S1", Method: "WhoAmISecondLink", Ret: who1, Err: errText(e1), Extra: other, Done: true})
+	}
+	close(w.gate(760))
+	select {
+	case cl := <-done:
+		rec.Calls = append(rec.Calls, cl)
+	case <-time.After(4 * time.Second):
+		rec.Calls = append(rec.Calls, SysCall{Tag: 760, From: "S0", Method: "OpenLink", Err: "DID-NOT-RETURN"})
+	}
+	lmu.Lock()
+	links := []*SysLink[T]{l0, l1}
+	lmu.Unlock()
+	for i, l := range links {
+		if l == nil {
+			continue
+		}
+		l.CancelA()
+		l.CancelB()
+		l.CloseTransport(errors.New("transport closed"))
+		for _, e := range []chan error{l.ErrA, l.ErrB} {
+			select {
+			case <-e:
+			case <-time.After(4 * time.Second):
+				rec.Notes = append(rec.Notes, fmt.Sprintf("link %d did not return", i))
+			}
+		}
+	}
+	waitUntil(func() bool { return len(hub.Remotes()) == 0 }, 3*time.Second)
+	time.Sleep(2 * time.Millisecond)
 	rec.Events = w.Events()
 	return rec
 }
